@@ -594,12 +594,19 @@ class ScanTrAccessors(Contract):
 
 class _CondBase(Contract):
     def replay(self, case, clause, model, path):
-        return battery_replay("cond_update", "cond_dist_branches")
+        return battery_replay("cond_update", "cond_dist_branches", "cond_mixed_dtypes")
 
     cases = ["args_only", "with_kwargs"]
 
     def mk(self, case):
-        self.g1, self.g2 = AbsGF("h1"), AbsGF("h2")
+        if "int_and_float_retvals" in case:
+            # the two branches return numbers of DIFFERENT dtypes (an integer count vs a float): the selected return value
+            # is the taken branch's VALUE (promoted, never truncated to the other branch's dtype)
+            self.g1, self.g2 = AbsGF("h1", ret_kind="int"), AbsGF("h2", ret_kind="float")
+        elif "float_and_int_retvals" in case:
+            self.g1, self.g2 = AbsGF("h1", ret_kind="float"), AbsGF("h2", ret_kind="int")
+        else:
+            self.g1, self.g2 = AbsGF("h1"), AbsGF("h2")
         self.check = boolean("check")
         self.rest = (value("a0"), value("a1"))
         self.kwargs = {"kw": value("kw")} if "with_kwargs" in case else {}
@@ -618,6 +625,15 @@ class _CondBase(Contract):
         self.tr0 = core.CondTr(self.cd, self.check0, [t1, t2])
         return self.tr0
 
+    @staticmethod
+    def sel_ret(c, r1, r2):
+        """the VALUE of the taken branch's return value (numbers of different dtypes are compared as numbers)"""
+        if r1.sort() != r2.sort():
+            from vt.sym import _num2
+
+            r1, r2 = _num2(r1, r2)
+        return Sym(z3.If(c, r1, r2))
+
     def condtr_ok(self, tr, x1, x2, check=None):
         check = self.check if check is None else check
         g1, g2, a = self.g1, self.g2, self.a
@@ -626,12 +642,14 @@ class _CondBase(Contract):
             return
         c = check.e
         yield "score_is_minus_density_of_selected_branch", same(tr.get_score(), Sym(-z3.If(c, g1.D(a, x1), g2.D(a, x2))))
-        yield "retval_is_selected_branch_retval", same(tr.get_retval(), Sym(z3.If(c, g1.R(a, x1), g2.R(a, x2))))
+        yield "retval_is_selected_branch_retval", same(tr.get_retval(), self.sel_ret(c, g1.R(a, x1), g2.R(a, x2)))
         yield "choices_are_selected_branch_choices", same(tr.get_choices(), Sym(z3.If(c, x1, x2)))
 
 
 @contract("genjax.core:Cond.simulate", ["C01"])
 class CondSimulate(_CondBase):
+    cases = _CondBase.cases + ["args_only:int_and_float_retvals", "args_only:float_and_int_retvals"]
+
     def call(self, case):
         self.mk(case)
         return self.real(self.fn, self.cd, *self.args, **self.kwargs)
@@ -647,6 +665,8 @@ class CondSimulate(_CondBase):
 
 @contract("genjax.core:Cond.assess", ["C01"])
 class CondAssess(_CondBase):
+    cases = _CondBase.cases + ["args_only:int_and_float_retvals", "args_only:float_and_int_retvals"]
+
     def call(self, case):
         self.mk(case)
         self.x = value("x")
@@ -659,7 +679,7 @@ class CondAssess(_CondBase):
         dens, ret = path.value
         c, a, x = self.check.e, self.a, self.x.e
         yield "density_selected_by_condition", same(dens, Sym(z3.If(c, self.g1.D(a, x), self.g2.D(a, x))))
-        yield "retval_selected_by_condition", same(ret, Sym(z3.If(c, self.g1.R(a, x), self.g2.R(a, x))))
+        yield "retval_selected_by_condition", same(ret, self.sel_ret(c, self.g1.R(a, x), self.g2.R(a, x)))
 
 
 @contract("genjax.core:Cond.generate", ["C02"])
